@@ -689,6 +689,8 @@ def IFF(a, b):
 def EQ(a, b):
     """Structural equality as a formula (no forking): tuples/lists/dicts recursively, None, numbers, strings,
     proxies."""
+    if a is b:
+        return True
     if isinstance(a, (tuple, list)) and isinstance(b, (tuple, list)):
         if len(a) != len(b):
             return False
@@ -700,6 +702,8 @@ def EQ(a, b):
     if isinstance(a, (set, frozenset)) and isinstance(b, (set, frozenset)):
         return a == b
     sa, sb = is_sym(a), is_sym(b)
+    if sa and sb and type(a) is type(b) and a.t.get_id() == b.t.get_id():
+        return True  # hash-consed: the very same term
     if not sa and not sb:
         r = a == b
         try:
